@@ -487,7 +487,13 @@ def build_ir_function(name):
     for an, d in spec["attrs"].items():
         t = {"float": ir.AttributeType.FLOAT, "int": ir.AttributeType.INT}[d["type"]]
         attrs.append(ir.Attr(an, t, d["default"]))
-    fn = B.build_function(trace_fn, [B.make_value(p) for p in spec["params"]], domain="vf.ir", name="ir_" + name,
+    def formal_value(p):
+        t = spec.get("param_types", {}).get(p)
+        if t is None:
+            return B.make_value(p)
+        return B.make_value(p, ir.TypeAndShape(ir.TensorType(_np_to_ir_dtype(ir, t[0])), ir.Shape(list(t[1]))))
+
+    fn = B.build_function(trace_fn, [formal_value(p) for p in spec["params"]], domain="vf.ir", name="ir_" + name,
                           attributes=attrs, opset_imports={"": OPSET})
     _IR_FN_CACHE[name] = fn
     return fn
